@@ -11,9 +11,9 @@ Proof. induction rs as [|r t IH]; cbn [pop_go]; [reflexivity|]. rewrite IH. refl
 (* one step of pop_go false, as a case analysis that the lemmas below share *)
 Inductive pop_step (r : responder) (skip readd : list msgid) : list msgid -> list msgid -> bool -> Prop :=
 | ps_expunge m : r = RExpunge m -> pop_step r skip readd (m :: skip) readd false
-| ps_exists_held m u f tg og : r = RExists m u f tg og -> existsb (N.eqb m) skip = true ->
+| ps_exists_held m u f tg og : r = RExists m u f tg og -> existsb (N.eqb m) skip || nonempty readd = true ->
     pop_step r skip readd (filter (fun x => negb (x =? m)) skip) (m :: readd) false
-| ps_exists_pop m u f tg og : r = RExists m u f tg og -> existsb (N.eqb m) skip = false ->
+| ps_exists_pop m u f tg og : r = RExists m u f tg og -> existsb (N.eqb m) skip || nonempty readd = false ->
     pop_step r skip readd skip readd true
 | ps_fetch_held m f op au si fo : r = RFetch m f op au si fo -> existsb (N.eqb m) readd = true ->
     pop_step r skip readd skip readd false
@@ -26,7 +26,7 @@ Lemma pop_go_cons r t skip readd p q : pop_go false skip readd (r :: t) = (p, q)
     p = (if popped then r :: p' else p') /\ q = (if popped then q' else r :: q').
 Proof.
   cbn [pop_go]. destruct r as [m u f tg og | m | m f op au si fo].
-  - destruct (existsb (N.eqb m) skip) eqn:E.
+  - destruct (existsb (N.eqb m) skip || nonempty readd) eqn:E.
     + destruct (pop_go false _ _ t) as [p' q'] eqn:E'. intros H. injection H as <- <-.
       eexists _, _, false, p', q'. split; [eapply ps_exists_held; [reflexivity|exact E]|]. split; [exact E'|split; reflexivity].
     + destruct (pop_go false _ _ t) as [p' q'] eqn:E'. intros H. injection H as <- <-.
@@ -159,7 +159,7 @@ Proof.
           split; [exact A|]. cbn [filter about]. destruct (N.eqb_spec m' m); [congruence|]. exact B.
       + (* exists, popped *)
         destruct (N.eqb_spec m' m) as [->|Hne].
-        * destruct Hst as [Hin|[Hout Hexp]]; [congruence|].
+        * apply orb_false_iff in Hin' as [Hin' _]. destruct Hst as [Hin|[Hout Hexp]]; [congruence|].
           cbn [filter about] in Hexp. rewrite N.eqb_refl in Hexp. discriminate.
         * assert (Halt': alt m t).
           { unfold alt in *. cbn [filter about] in Halt. destruct (N.eqb_spec m' m); [congruence|]. exact Halt. }
@@ -205,14 +205,20 @@ Proof.
         { cbn [existsb]. destruct (N.eqb_spec m m'); [congruence|]. exact Hout. }
         destruct (IH _ _ _ _ St Halt' E) as [A B].
         cbn [filter about]. destruct (N.eqb_spec m' m); [congruence|]. split; [exact A|exact B].
-    + (* exists, held: m' is in skip, so m' <> m *)
-      assert (Hne : m' <> m) by (intros ->; congruence).
-      assert (Halt': alt m t).
-      { unfold alt in *. cbn [filter about] in Halt. destruct (N.eqb_spec m' m); [congruence|]. exact Halt. }
-      assert (St: existsb (N.eqb m) (filter (fun x => negb (x =? m')) skip) = false)
-        by (rewrite skip_filter_other by exact Hne; exact Hout).
-      destruct (IH _ _ _ _ St Halt' E) as [A B].
-      cbn [filter about]. destruct (N.eqb_spec m' m); [congruence|]. split; [exact A|exact B].
+    + (* exists, held (its expunge is held, or an earlier exists is) *)
+      destruct (N.eqb_spec m' m) as [->|Hne].
+      * (* about m, although m is not in skip: an earlier exists is held. From here on nothing about m is popped *)
+        unfold alt in Halt. cbn [filter about] in Halt. rewrite N.eqb_refl in Halt. cbn [alt_seq] in Halt.
+        destruct Halt as [Hnext Halt'].
+        assert (St: existsb (N.eqb m) (filter (fun x => negb (x =? m)) skip) = false) by apply skip_filter_self.
+        destruct (pop_held_all_gen m t _ _ _ _ Halt' (or_intror (conj St (Hnext eq_refl))) E) as [A B].
+        cbn [filter about]. rewrite N.eqb_refl. rewrite A. cbn [app]. split; [f_equal; exact B|intros r []].
+      * assert (Halt': alt m t).
+        { unfold alt in *. cbn [filter about] in Halt. destruct (N.eqb_spec m' m); [congruence|]. exact Halt. }
+        assert (St: existsb (N.eqb m) (filter (fun x => negb (x =? m')) skip) = false)
+          by (rewrite skip_filter_other by exact Hne; exact Hout).
+        destruct (IH _ _ _ _ St Halt' E) as [A B].
+        cbn [filter about]. destruct (N.eqb_spec m' m); [congruence|]. split; [exact A|exact B].
     + (* exists, popped *)
       destruct (N.eqb_spec m' m) as [->|Hne].
       * unfold alt in Halt. cbn [filter about] in Halt. rewrite N.eqb_refl in Halt. cbn [alt_seq] in Halt.
@@ -270,7 +276,7 @@ Fixpoint pop_state (skip readd : list msgid) (rs : list responder) : list msgid 
   | [] => (skip, readd)
   | RExpunge m :: t => pop_state (m :: skip) readd t
   | RExists m _ _ _ _ :: t =>
-      if existsb (N.eqb m) skip then pop_state (filter (fun x => negb (x =? m)) skip) (m :: readd) t
+      if existsb (N.eqb m) skip || nonempty readd then pop_state (filter (fun x => negb (x =? m)) skip) (m :: readd) t
       else pop_state skip readd t
   | RFetch _ _ _ _ _ _ :: t => pop_state skip readd t
   end.
@@ -284,7 +290,7 @@ Proof.
   induction pre as [|r t IH]; intros post skip readd.
   - cbn [app pop_go pop_state]. destruct (pop_go false skip readd post). reflexivity.
   - cbn [app pop_go pop_state]. destruct r as [m u f tg og | m | m f op au si fo].
-    + destruct (existsb (N.eqb m) skip); rewrite IH;
+    + destruct (existsb (N.eqb m) skip || nonempty readd); rewrite IH;
         destruct (pop_go false _ _ t) as [p1 q1]; destruct (pop_state _ _ t) as [sk rd];
         destruct (pop_go false sk rd post) as [p2 q2]; reflexivity.
     + rewrite IH. destruct (pop_go false _ _ t) as [p1 q1]; destruct (pop_state _ _ t) as [sk rd];
@@ -313,6 +319,38 @@ Proof.
   injection H as <- <-. exists p1, q1, p2, q2. repeat split.
   - intros r Hr. eapply (pop_readd_holds_fetches m post); [|exact E|exact Hr]. cbn [existsb]. rewrite N.eqb_refl. reflexivity.
   - eapply (pop_readd_keeps_fetches m post); [|exact E]. cbn [existsb]. rewrite N.eqb_refl. reflexivity.
+Qed.
+
+(* ---------- EXISTS are handled in queue order (= UID order) ---------- *)
+Lemma pop_nonempty_holds_exists rs : forall skip readd p q,
+  nonempty readd = true -> pop_go false skip readd rs = (p, q) -> filter is_rexists p = [].
+Proof.
+  induction rs as [|r t IH]; intros skip readd p q Hne H.
+  - cbn [pop_go] in H. injection H as <- <-. reflexivity.
+  - apply pop_go_cons in H as (skip' & readd' & popped & p' & q' & Hs & E & -> & ->).
+    inversion Hs as [m' Hr | m' u f tg og Hr Hh | m' u f tg og Hr Hh | m' f op au si fo Hr Hh | m' f op au si fo Hr Hh]; subst.
+    + eapply IH; eauto.
+    + eapply IH; [|exact E]. reflexivity.
+    + rewrite Hne, orb_true_r in Hh. discriminate.
+    + eapply IH; eauto.
+    + cbn [filter is_rexists]. eapply IH; eauto.
+Qed.
+
+(* what a flush that must not send EXPUNGE handles of the exists responders is a prefix of them: no EXISTS overtakes an
+   EXISTS that is held back, so messages are announced and inserted in the order they were queued (ascending UID) *)
+Theorem pop_exists_in_order rs : forall skip readd p q,
+  pop_go false skip readd rs = (p, q) ->
+  filter is_rexists p ++ filter is_rexists q = filter is_rexists rs.
+Proof.
+  induction rs as [|r t IH]; intros skip readd p q H.
+  - cbn [pop_go] in H. injection H as <- <-. reflexivity.
+  - apply pop_go_cons in H as (skip' & readd' & popped & p' & q' & Hs & E & -> & ->).
+    specialize (IH _ _ _ _ E).
+    inversion Hs as [m' Hr | m' u f tg og Hr Hh | m' u f tg og Hr Hh | m' f op au si fo Hr Hh | m' f op au si fo Hr Hh]; subst;
+      cbn [filter is_rexists]; try exact IH.
+    + assert (Hn : nonempty (m' :: readd) = true) by reflexivity.
+      rewrite (pop_nonempty_holds_exists t _ _ _ _ Hn E) in IH |- *. cbn [app] in *. f_equal. exact IH.
+    + cbn [app]. f_equal. exact IH.
 Qed.
 
 (* the policy before the repair let the flag change overtake both: witness *)
